@@ -532,9 +532,7 @@ func TestC14Long(t *testing.T) {
 			if !thorough() || step%4 == 0 || inflight == 0 {
 				_, loops = clCensus()
 			}
-			if loops < 0 {
-				loops = streams // not sampled at this step
-			}
+			// loops stays -1 when the census was not taken at this step: the checker skips the loop bound there
 			if inflight == 0 {
 				idleSamples++
 			}
@@ -545,7 +543,7 @@ func TestC14Long(t *testing.T) {
 			if srv > maxSrv {
 				maxSrv = srv
 			}
-			samples = append(samples, fmt.Sprintf("(%d, %d, %d, %d, %s)", reg, loops, inflight, streams, coqZ(int64(srv))))
+			samples = append(samples, fmt.Sprintf("(%d, %s, %d, %d, %s)", reg, coqZ(int64(loops)), inflight, streams, coqZ(int64(srv))))
 		}
 		step := 0
 		for started < total || len(active) > 0 {
